@@ -4,6 +4,7 @@ import (
 	"fmt"
 	"net/http"
 	"strings"
+	"sync"
 
 	"github.com/jub0bs/cors"
 	"github.com/jub0bs/cors/internal/zzverif/vlib"
@@ -87,6 +88,41 @@ func c12Probes() []vlib.Req {
 		vlib.Req{Method: "OPTIONS", Hdr: map[string][]string{"Origin": {"https://a.example"}, "Access-Control-Request-Method": {"PUT"}, "Access-Control-Request-Headers": {"x-evil"}}},
 		vlib.Req{Method: "OPTIONS", Hdr: map[string][]string{"Origin": {"https://d.example"}, "Access-Control-Request-Method": {"EVIL"}, "Access-Control-Request-Headers": {"x-evil"}}},
 	)
+	// variations of every served request: the same request with one more (disallowed) ACRH field line, with the
+	// first line kept and a disallowed second one, with a near-miss origin / method, and with ACRPN toggled
+	for _, r := range c12Requests() {
+		if len(r.Hdr["Origin"]) == 0 {
+			continue
+		}
+		mut := func(f func(h map[string][]string)) {
+			h := map[string][]string{}
+			for k, v := range r.Hdr {
+				h[k] = append([]string(nil), v...)
+			}
+			f(h)
+			p = append(p, vlib.Req{Method: r.Method, Hdr: h})
+		}
+		mut(func(h map[string][]string) { h["Origin"] = []string{h["Origin"][0] + ".evil.example"} })
+		mut(func(h map[string][]string) {
+			h["Origin"] = []string{"x" + h["Origin"][0][len("https://"):]}
+			h["Origin"][0] = "https://" + h["Origin"][0]
+		})
+		if l, ok := r.Hdr["Access-Control-Request-Headers"]; ok {
+			mut(func(h map[string][]string) {
+				h["Access-Control-Request-Headers"] = append(append([]string{}, l...), "x-evil")
+			})
+			mut(func(h map[string][]string) { h["Access-Control-Request-Headers"] = []string{l[0], "x-evil,x-zz"} })
+			mut(func(h map[string][]string) { h["Access-Control-Request-Headers"] = []string{l[0] + ",x-zz"} })
+			mut(func(h map[string][]string) { h["Access-Control-Request-Method"] = []string{"EVIL"} })
+			mut(func(h map[string][]string) {
+				if _, ok := h["Access-Control-Request-Private-Network"]; ok {
+					delete(h, "Access-Control-Request-Private-Network")
+				} else {
+					h["Access-Control-Request-Private-Network"] = []string{"true"}
+				}
+			})
+		}
+	}
 	return p
 }
 
@@ -205,16 +241,49 @@ func (w *c12World) apply(op string) error {
 	return nil
 }
 
+var (
+	c12PristineOnce sync.Once
+	c12Pristine     []string
+	c12PristineErr  error
+)
+
+// c12Baseline: what each middleware answers to each probe when that probe is the very first request it ever
+// sees (a fresh world per probe), computed once per process before any adversarial activity. Comparing with it
+// (rather than with a probe run on the same world) also exposes answers that depend on an earlier *request*.
+func c12Baseline() ([]string, error) {
+	c12PristineOnce.Do(func() {
+		probes := c12Probes()
+		for mi := 0; mi < 3; mi++ {
+			for _, p := range probes {
+				w, err := c12NewWorld()
+				if err != nil {
+					c12PristineErr = err
+					return
+				}
+				c12Pristine = append(c12Pristine, observe(w.m[mi], []vlib.Req{p})...)
+			}
+		}
+	})
+	return c12Pristine, c12PristineErr
+}
+
 func c12Judge(k c12Case) *vlib.Failure {
+	base, err := c12Baseline()
+	if err != nil {
+		return vlib.Failf("configurations of the C12 alphabet rejected: %v", err)
+	}
 	w, err := c12NewWorld()
 	if err != nil {
 		return vlib.Failf("configurations of the C12 alphabet rejected: %v", err)
 	}
-	base := w.probe()
 	for _, s := range base {
 		if strings.Contains(s, canary) {
 			return vlib.Failf("canary in a baseline response")
 		}
+	}
+	if j := firstDiff(base, w.probe()); j >= 0 {
+		probes := c12Probes()
+		return vlib.Failf("before any operation: middleware m%d answers %s differently when it is not the first request it sees (the probes before it are the only history)", j/len(probes), probes[j%len(probes)])
 	}
 	probes := c12Probes()
 	for i, op := range k.Ops {
@@ -251,7 +320,7 @@ func checkC12(c *vlib.Ctx) (string, string) {
 		ops []string
 		n   int
 	}
-	passes := vlib.Pick(c, []pass{{full, 2}, {red, 4}}, []pass{{full, 3}, {red, 5}})
+	passes := vlib.Pick(c, []pass{{red, 3}}, []pass{{full, 3}, {red, 5}})
 	// Pass 0 is sequential and in simplest-first order: a history that corrupts process-global state (e.g. a
 	// shared singleton slice) is then blamed itself, instead of whichever history happens to run next.
 	w0 := vlib.NewWords(full, 2)
